@@ -85,6 +85,8 @@ int main(int argc, char **argv) {
     if (!replay.empty()) {
         std::string text, err; Case c;
         if (!read_file(replay, text) || !case_from_json(text, c, err)) { fprintf(g_res, "E cannot read case: %s\n", err.c_str()); fflush(g_res); return 2; }
+        extern bool g_force_user_workspace;
+        if (c.note.find("force-user") != std::string::npos) g_force_user_workspace = true;
         RunOutcome o = execute_case(c);
         if (twice) { RunOutcome o2 = execute_case(c); if (o2.hash != o.hash) { fprintf(g_res, "E nondeterministic replay %llx vs %llx\n", (unsigned long long)o.hash, (unsigned long long)o2.hash); fflush(g_res); return 2; } }
         fprintf(g_res, "R -1 %s\n", outcome_json(o, replay).c_str()); fflush(g_res);
